@@ -197,7 +197,7 @@ fn one_config(cx: &mut Ctx, cfg: &'static str, profile: &'static str, tier_arg: 
 }
 
 pub fn run(cx: &mut Ctx) {
-    cx.assume("floor is asserted exactly for |x| < 2^31 (the backends go through an integer cast; DESIGN D-g); beyond that only 'does not panic'");
+    cx.assume("floor is asserted exactly over each backend's representable range — |x| < 2^31 for micromath (i32 cast), |x| < 2^63 for the built-in fallback (i64 cast), every finite value for libm and std (DESIGN D-g); beyond that only 'does not panic'");
     cx.assume("atan2 is compared as a direction (modulo one turn): +pi and -pi on either side of the branch cut agree");
     cx.assume("per-backend bounds are fixed in harness/fpprobe/src/main.rs: libm and std <= 4 ulp (1 ulp for sqrt) against the f64 reference; micromath: sin/cos 2e-3 abs, sqrt 3e-3 rel, recip_sqrt 4e-3 rel, tan 2e-2, asin/acos/atan2 5e-2 abs, powf 5e-2 rel");
     let tier_arg = cx.tier.name().to_string();
